@@ -279,7 +279,11 @@ def gen_op(w, rng, allow_fresh):
         a, b = rng.sample(kids, 2)
         return ("swap", a, b)
     if kind == "cascade":
-        return ("cascade", rng.sample(kids, rng.randint(2, 5)))
+        lst = rng.sample(kids, rng.randint(2, 5))
+        if rng.random() < 0.3:          # None levels (a findAssembly miss): skipped by the code
+            for _ in range(rng.randint(1, 2)):
+                lst.insert(rng.randint(0 if rng.random() < 0.15 else 1, len(lst)), None)
+        return ("cascade", lst)
     if kind == "dsfp" and len(w.sfp) > 0:
         return ("dsfp", rng.choice(list(w.sfp)), rng.choice(kids))
     if kind == "dnew" and allow_fresh:
@@ -325,7 +329,9 @@ def op_shape(w, op, exc):
     if k == "swap":
         return (k, tuple(sorted([special(op[1]), special(op[2])])), (nstat(op[1]), nstat(op[2])), outcome, pool, ncore)
     if k == "cascade":
-        return (k, len(op[1]), tuple(sorted(special(a) for a in op[1])), tuple(nstat(a) for a in op[1]), outcome, pool, ncore)
+        real = [a for a in op[1] if a is not None]
+        return (k, len(op[1]), tuple(i for i, a in enumerate(op[1]) if a is None), len(real) - len({id(a) for a in real}),
+                tuple(sorted(special(a) for a in real)), tuple(nstat(a) for a in real), outcome, pool, ncore)
     if k in ("dnew", "dsfp"):
         return (k, nstat(op[1]), special(op[2]), nstat(op[2]), op[2].getType(), outcome, pool, ncore)
     if k == "remove":
@@ -333,12 +339,25 @@ def op_shape(w, op, exc):
     return (k, tuple(op[2]), op[1].getType(), outcome, pool, ncore)
 
 
+def cascade_expectation(op):
+    """cells after `swapCascade(lst)` by its definition: swap lst[0] with every later non-None entry, in order"""
+    lst = op[1]
+    real = [a for a in lst if a is not None]
+    pos = {id(a): cell_of(a) for a in real}
+    if lst and lst[0] is not None:
+        for x in lst[1:]:
+            if x is None or x is lst[0]:
+                continue
+            pos[id(lst[0])], pos[id(x)] = pos[id(x)], pos[id(lst[0])]
+    return [(a, pos[id(a)]) for a in {id(a): a for a in real}.values()]
+
+
 def op_line(w, op):
     k = op[0]
     if k == "swap":
         return "swap %d %d" % (w.n(op[1]), w.n(op[2]))
     if k == "cascade":
-        return "cascade [%s]" % ",".join(str(w.n(a)) for a in op[1])
+        return "cascade [%s]" % ",".join("_" if a is None else str(w.n(a)) for a in op[1])
     if k == "dnew":
         return "dnew %s %d" % (w.asm_str(op[1]), w.n(op[2]))
     if k == "dsfp":
@@ -392,7 +411,7 @@ def touched(op):
     if k == "swap":
         return [op[1], op[2]]
     if k == "cascade":
-        return list(op[1])
+        return [a for a in op[1] if a is not None]
     if k in ("dnew", "dsfp"):
         return [op[1], op[2]]
     return [op[1]]
@@ -412,7 +431,15 @@ def run_sequence(ctx, track, stat, nops, seed, compare=True):
         line = op_line(w, op)
         before = w.canon()
         shape_before = op_shape(w, op, None)
+        expect_cells = cascade_expectation(op) if op[0] == "cascade" else None
         exc = apply_op(w, op)
+        if expect_cells is not None and exc is None:
+            wrong = [(a.name, cell_of(a), c) for a, c in expect_cells if cell_of(a) != c]
+            if wrong:
+                fails.append(Failure("cascade-sequential-definition", "a cascade swaps its first assembly with each later "
+                                     "non-None entry in order: every assembly sits where that puts it", case,
+                                     observed=[(n, got) for n, got, _ in wrong[:4]], expected=[(n, c) for n, _, c in wrong[:4]],
+                                     note="op %d: %s" % (k, line[:100])))
         tag = "op %d: %s" % (k, line if len(line) < 120 else line[:117] + "...")
         ctx.count("op " + op[0] + (" (raised)" if exc is not None else ""))
         ctx.distinct.add(("op",) + shape_before[:-3] + ("ok" if exc is None else type(exc).__name__,)
@@ -671,19 +698,31 @@ def run(ctx):
 
 
 def search(ctx, disagreements, broken):
-    """Re-run the disagreeing sequences and neighbours (other seeds, same settings) with the oracle only."""
+    """Directed search, capped (quick ~90 s): re-run the disagreeing sequences first (oracle only), then the same
+    settings with neighbouring seeds; stops at the first concrete failing input or when the budget is spent."""
+    import time
+    deadline = time.time() + ctx.pick(90, 300)
     out, done = [], set()
-    for d in disagreements:
-        c = d.case
-        if not isinstance(c, dict) or "seed" not in c:
-            continue
-        key = (c["track"], c["stationary"])
-        if key in done:
+    cases = [d.case for d in disagreements if isinstance(d.case, dict) and "seed" in d.case]
+    sub = type(ctx)(ctx.prop, ctx.tier, ctx.seed)
+    for c in cases:                       # the disagreeing sequences themselves
+        key = (c["track"], c["stationary"], c["seed"])
+        if key in done or time.time() > deadline:
             continue
         done.add(key)
-        sub = type(ctx)(ctx.prop, ctx.tier, ctx.seed)
-        for seed in [c["seed"]] + [c["seed"] + k for k in range(1, 6)]:
-            fails, _, _ = run_sequence(sub, c["track"], c["stationary"], max(c["nops"], 60), seed)
+        fails, _, _ = run_sequence(sub, c["track"], c["stationary"], c["nops"], c["seed"])
+        out += fails
+        if out:
+            return out
+    for c in cases:                       # neighbours
+        for k in range(1, 4):
+            if time.time() > deadline:
+                return out
+            key = (c["track"], c["stationary"], c["seed"] + k)
+            if key in done:
+                continue
+            done.add(key)
+            fails, _, _ = run_sequence(sub, c["track"], c["stationary"], max(c["nops"], 40), c["seed"] + k)
             out += fails
             if out:
                 return out
